@@ -122,6 +122,9 @@ def _case(draw, near=False):
         case["positions"] = sorted(rng.integers(0, n + 1, size=k).tolist()) if k <= 3 else {"count": k, "where": int(rng.integers(0, n + 1))}
     if name == "PCGrad":
         case["schedule"] = [rng.permutation(m).tolist() for _ in range(m)]
+        # half of the PCGrad cases use no scripted schedule at all: only torch.manual_seed(seed) before every related call
+        # ("under a fixed random seed"), so where the permutations come from - and how many are drawn - is part of the check
+        case["seeded"] = draw(st.booleans())
     return case
 
 
@@ -187,7 +190,7 @@ def parts(tier):
 def _run(spec, dtype, Jt, case):
     A = aggs.make(spec, dtype)
     torch.manual_seed(case["seed"])
-    if spec["name"] == "PCGrad":
+    if spec["name"] == "PCGrad" and not case.get("seeded"):
         with rel.ScriptedRandperm(case["schedule"]):
             return A, A(Jt)
     return A, A(Jt)
